@@ -427,6 +427,36 @@ def round_trip_sweep(ctx, nix, path, n):
         f.close()
 
 
+def real_clock(ctx, nix, path, tz):
+    """Without the logical clock: 'the current time' a stamp is set to is the POSIX time of the moment (seconds since
+    1970-01-01 UTC), whatever time zone the process runs in - read back within a second or two of time.time()."""
+    import time
+    f = nix.File.open(path, nix.FileMode.Overwrite)
+    try:
+        t0 = int(time.time())
+        b = f.create_block("b", "t")
+        da = b.create_data_array("d", "t", data=[1.0])
+        sec = f.create_section("s", "t")
+        t1 = int(time.time())
+        for kind, e in (("File", f), ("Block", b), ("DataArray", da), ("Section", sec)):
+            for field in ("created_at", "updated_at"):
+                got = getattr(e, field)
+                ctx.count("real_clock_stamps_read")
+                if not (t0 - 1 <= got <= t1 + 1):
+                    ctx.violation("stamp_is_not_the_posix_time:%s.%s:zone_offset_class_%s" % (kind, field, "utc" if tz == "UTC" else "non_utc"),
+                                  {"zone": tz, "stamp": got, "time.time()": [t0, t1], "difference_s": got - t0}, {"real_clock": True})
+        time.sleep(1.1)
+        t2 = int(time.time())
+        da.label = "x"
+        got = da.updated_at
+        if not (t2 - 1 <= got <= int(time.time()) + 1):
+            ctx.violation("stamp_is_not_the_posix_time:DataArray.updated_at_after_label:zone_offset_class_%s" % ("utc" if tz == "UTC" else "non_utc"),
+                          {"zone": tz, "stamp": got, "time.time()": t2, "difference_s": got - t2}, {"real_clock": True})
+        ctx.case(("real_clock", tz), sample={"real_clock_zone": tz})
+    finally:
+        f.close()
+
+
 ZONES = ["UTC", "Asia/Kolkata", "America/St_Johns", "Pacific/Auckland", "America/Los_Angeles", "Europe/Berlin"]
 
 
@@ -441,6 +471,7 @@ def run_shard(spec, ctx):
     ctx.count("timezone:" + tz)
     nix = env.import_nixio()
     path = env.scratch_file("c19_%d.nix" % ctx.shard)
+    ctx.guarded("real_clock", real_clock, ctx, nix, env.scratch_file("c19_real_%d.nix" % ctx.shard), tz)
     if spec["i"] == 0:
         ctx.guarded("sweep", round_trip_sweep, ctx, nix, env.scratch_file("c19_sweep.nix"), 300 if spec["ops"] <= 70 else 3000)
     for k in range(spec["files"]):
@@ -458,6 +489,14 @@ def replay(w, ctx):
     nix = env.import_nixio()
     ctx.shard = w.get("shard", 0)
     ctx.case(("replay",))
+    if w.get("real_clock"):
+        import os
+        import time
+        for tz in ZONES:
+            os.environ["TZ"] = tz
+            time.tzset()
+            real_clock(ctx, nix, env.scratch_file("c19_real_replay.nix"), tz)
+        return
     if w.get("sweep"):
         round_trip_sweep(ctx, nix, env.scratch_file("c19_sweep.nix"), 300)
         return
